@@ -86,9 +86,21 @@ def checkSpecial (s : List Char) : Option (TokKind × Nat) :=
   | some tk => some (tk.2, tk.1.length)
   | none => none
 
+/-- the characters of a string literal up to its closing quote: the character after a backslash never closes
+    the string (finding F70, repaired: the scan stopped at the first quote, so `\\"` could not be written) -/
+def strBodyLen : List Char → Nat
+  | [] => 0
+  | c :: rest =>
+    if c == '"' then 0
+    else if c == '\\' then
+      match rest with
+      | [] => 1
+      | _ :: rest' => strBodyLen rest' + 2
+    else strBodyLen rest + 1
+
 def checkString : List Char → Option (TokKind × Nat)
   | '"' :: rest =>
-    let n := spanLen (fun c => c != '"') rest
+    let n := strBodyLen rest
     if n < rest.length then some (.String, n + 2) else none
   | _ => none
 
